@@ -255,9 +255,9 @@ class SpatialVector(SMUserList):
         if isinstance(left, (SE3, Twist3)):
             X = left.Ad()
             if isinstance(right, SpatialM6):
-                return right.__class__(X @ right.A)
+                return right.__class__([X @ x for x in right.data])
             else:
-                return right.__class__(X.T @ right.A)
+                return right.__class__([X.T @ x for x in right.data])
         else:
             raise TypeError('left operand of * must be SE3 or Twist3')
 
